@@ -5,6 +5,7 @@ import (
 	"errors"
 	"math/rand"
 	"strings"
+	"sync/atomic"
 	"time"
 
 	"github.com/dgryski/go-wyhash"
@@ -101,7 +102,7 @@ type RedisPubsubPeers struct {
 	Done chan struct{}
 
 	peers     *generics.MapWithTTL[string, string]
-	hash      uint64
+	hash      atomic.Uint64
 	callbacks []func()
 	sub       pubsub.Subscription
 	topic     string // formatted topic name
@@ -112,14 +113,13 @@ type RedisPubsubPeers struct {
 func (p *RedisPubsubPeers) checkHash() {
 	peers := p.peers.SortedKeys()
 	newhash := hashList(peers)
-	if newhash != p.hash {
-		p.hash = newhash
+	if p.hash.Swap(newhash) != newhash {
 		for _, cb := range p.callbacks {
 			go cb()
 		}
 	}
 	p.Metrics.Gauge("num_peers", float64(len(peers)))
-	p.Metrics.Gauge("peer_hash", float64(p.hash))
+	p.Metrics.Gauge("peer_hash", float64(newhash))
 }
 
 func (p *RedisPubsubPeers) listen(ctx context.Context, msg string) {
@@ -214,7 +214,7 @@ func (p *RedisPubsubPeers) Ready() error {
 				p.Logger.Debug().WithFields(map[string]any{
 					"ids":       p.peers.SortedKeys(),
 					"peers":     p.peers.SortedValues(),
-					"hash":      p.hash,
+					"hash":      p.hash.Load(),
 					"num_peers": p.peers.Length(),
 					"self":      myaddr,
 				}).Logf("peer report")
